@@ -156,6 +156,9 @@ def _run(ctx, n, nops, rep):
     cli_hist.refused_removal_probe(ctx, rep, CLI_MINE)
     cli_hist.scan_fault_probe(ctx, rep, CLI_MINE)
     # and over the remote adapters (B2 by bucket name and by bucket id, S3-compatible) against in-memory fake services
+    # a snapshot whose producer finishes while the only upload worker is looking at the (still empty) queue: what it publishes restores
+    from harness import c09 as _c09
+    _c09.queue_race_probe(ctx, rep)
     remote_hist.remote_probe(ctx, rep, ('exception', 'restore_mismatch', 'referenced_chunk_missing'))
     # ... and while the service fails one kind of call of a snapshot command for good (in every second trial the existence check of a
     # chunk): whatever the command reports, what is listed afterwards has all its chunks
@@ -179,6 +182,13 @@ def replay(ctx, obj):
     rc = cli_hist.replay_cli(ctx, obj, CLI_MINE)
     if rc is not None:
         return rc
+    if (obj.get('replay') or {}).get('probe') == 'queue_race':
+        from harness import c09 as _c09
+        rep = Report(rule=RULE)
+        _c09.queue_race_probe(ctx, rep)
+        for v in rep.violations:
+            print('VIOLATION-REPRODUCED', v['what'])
+        return 1 if rep.violations else 0
     if (obj.get('replay') or {}).get('probe') == 'overlap_fail':
         rep = Report(rule=RULE)
         overlap_fail_probe(ctx, rep)
